@@ -10,7 +10,9 @@ for d in sorted(glob.glob(os.path.join(root, "seeded", "*"))):
     m = json.load(open(mp))
     det = m.get("detection", [])
     last = {}
-    for r in det:            # latest result per (check, tier)
+    for r in det:            # latest result per check (records are in chronological order; the checks
+        last.pop((r["check"], "quick"), None)      # were strengthened between runs, an older run of
+        last.pop((r["check"], "thorough"), None)   # the same check in another tier is superseded)
         last[(r["check"], r["tier"])] = r
     caught = sorted({"%s(%s)" % (k[0], k[1]) for k, r in last.items() if r["caught"]})
     missed = sorted({"%s(%s)" % (k[0], k[1]) for k, r in last.items() if not r["caught"]})
